@@ -40,7 +40,7 @@ ASSUMPTIONS = [
 ]
 
 OUT_FILE = _output.__file__
-DESTS = _output.Logger._destinations
+DESTS = world._DESTS
 
 OPS = ["log", "b999", "b1001", "b2001", "add1", "add23", "add0", "rm1", "rm2", "g1", "g2"]
 
@@ -136,18 +136,11 @@ class Real(object):
         eliot.add_global_fields(**f)
 
     def canon(self):
-        dst = DESTS._destinations
-        names = []
-        buf = None
-        for x in dst:
-            if isinstance(x, _output.BufferingDestination):
-                names.append("<buffer>")
-                buf = x.messages
-            else:
-                names.append(repr(x))
-        bufc = None
-        if buf is not None:
-            # run-length encode contents modulo serial renaming
+        """Structural canonical form of the real Destinations object, independent of the names of its
+        private attributes: its attribute values in sorted-name order, destinations by their repr,
+        lists of buffered messages run-length encoded modulo serial renaming."""
+
+        def runs_of(buf):
             runs = []
             nxt = None
             for m in buf:
@@ -158,13 +151,31 @@ class Real(object):
                     runs[-1][1] += 1
                 else:
                     runs.append([key, 1])
-            bufc = tuple((k, n) for k, n in runs)
-        return (
-            DESTS._any_added,
-            tuple(names),
-            bufc,
-            tuple(sorted(DESTS._globalFields.items())),
-        )
+            return tuple((k, n) for k, n in runs)
+
+        def c(v):
+            if isinstance(v, _output.BufferingDestination):
+                return ("<buffer>", c(vars(v)))
+            if isinstance(v, dict):
+                return tuple(sorted((repr(k), c(x)) for k, x in v.items()))
+            if isinstance(v, (list, tuple)) or type(v).__name__ == "deque":
+                v = list(v)
+                if v and all(isinstance(m, dict) and "serial" in m for m in v):
+                    return ("messages", runs_of(v))
+                return tuple(c(x) for x in v)
+            return repr(v)
+
+        return tuple(x for _, x in sorted((k, c(v)) for k, v in vars(DESTS).items()))
+
+
+def find_buffer():
+    """The BufferingDestination currently registered, if any (found by type, not by attribute name)."""
+    for v in vars(DESTS).values():
+        if isinstance(v, (list, tuple)):
+            for x in v:
+                if isinstance(x, _output.BufferingDestination):
+                    return x
+    return None
 
 
 def apply(obj, op):
@@ -368,7 +379,7 @@ def run_thr(hi, bound, shard):
 
     def setup(s):
         real = Real()
-        buffer0 = DESTS._destinations[0]
+        buffer0 = find_buffer()
         real.log(h["pre"])  # buffered before any thread starts
 
         def L():
@@ -414,9 +425,7 @@ def run_thr(hi, bound, shard):
                 "recv": {n: [g[0] for g in real.d[n].got] for n in h["add"]},
                 "globals": {n: [dict(g[1]).get("k") for g in real.d[n].got] for n in h["add"]},
                 "detached_buffer": [m.get("serial") for m in buffer0.messages],
-                "still_buffering": any(
-                    isinstance(x, _output.BufferingDestination) for x in DESTS._destinations
-                ),
+                "still_buffering": find_buffer() is not None,
             }
 
         return bodies, observe
